@@ -301,9 +301,42 @@ def k_other_orders():
     return out
 
 
+def k_tw_guard():
+    return _guard_def('tw_guard', 'TransformedWithDStream._step')
+
+
+def k_tw_order():
+    """TransformedWithDStream._step: 0 guard, 1 step parent, 2 step the other parent, 3 set _current_time,
+    4 _current_rdd = self._func(time_, parent rdd, other parent rdd)."""
+    f, _ = _guard_of('TransformedWithDStream._step')
+    order = [0]
+    for st in _body(f)[1:]:
+        if (_is_call_stmt(st, '_prev', '_step') and len(st.value.args) == 1
+                and isinstance(st.value.args[0], ast.Name) and st.value.args[0].id == 'time_'):
+            order.append(1)
+        elif (_is_call_stmt(st, '_other_prev', '_step') and len(st.value.args) == 1
+              and isinstance(st.value.args[0], ast.Name) and st.value.args[0].id == 'time_'):
+            order.append(2)
+        elif (isinstance(st, ast.Assign) and len(st.targets) == 1 and _is_self_attr(st.targets[0], '_current_time')
+              and isinstance(st.value, ast.Name) and st.value.id == 'time_'):
+            order.append(3)
+        elif (isinstance(st, ast.Assign) and len(st.targets) == 1 and _is_self_attr(st.targets[0], '_current_rdd')
+              and isinstance(st.value, ast.Call) and _is_self_attr(st.value.func, '_func') and len(st.value.args) == 3
+              and isinstance(st.value.args[0], ast.Name) and st.value.args[0].id == 'time_'
+              and _is_prev_rdd(st.value.args[1])
+              and isinstance(st.value.args[2], ast.Attribute) and st.value.args[2].attr == '_current_rdd'
+              and _is_self_attr(st.value.args[2].value, '_other_prev') and not st.value.keywords):
+            order.append(4)
+        else:
+            raise Unsupported(f'TransformedWithDStream._step: unexpected statement {ast.dump(st)[:90]}')
+    if sorted(order) != [0, 1, 2, 3, 4]:
+        raise Unsupported(f'TransformedWithDStream._step: effects found {order}')
+    return 'Definition tw_step_order : list Z := [' + '; '.join(map(str, order)) + '].\n'
+
+
 FILES = [
     ('Window.v', SRC, HEADER_Z, [('window_step', k_window), ('window_init', k_window_init),
                                  ('win_guard', k_win_guard), ('st_guard', k_st_guard),
                                  ('tr_guard', k_tr_guard), ('src_guard', k_src_guard),
-                                 ('other_orders', k_other_orders)]),
+                                 ('other_orders', k_other_orders), ('tw_guard', k_tw_guard), ('tw_order', k_tw_order)]),
 ]
